@@ -1235,7 +1235,7 @@ def cases(ctx):
                 infos.append(("shift", dict(N=N, M=M, pattern=pattern)))
 
     # ---- samplers: grids around the boundaries
-    reps = 1 if quick else 4
+    reps = 2 if quick else 8
     for L in range(0, 5):
         for R in range(0, 5):
             ms = sorted({-1, 0, 1, L * R // 3, L * R // 3 + 1, L * R - 1, L * R, L * R + 1, L * R // 2})
@@ -1251,9 +1251,9 @@ def cases(ctx):
                     infos.append(("sampler", dict(which="regular", args=[L, R, d], mode=rng.choice(MODES), rseed=rs())))
             for p in (0, 1, 0.5, -0.25, 1.5, 0.1):
                 infos.append(("sampler", dict(which="glrp", args=[L, R, p], mode=rng.choice(MODES), rseed=rs())))
-    big = 60 if quick else 600
+    big = 500 if quick else 6000
     for _ in range(big):
-        L, R = rng.randint(1, 7), rng.randint(1, 7)
+        L, R = rng.randint(1, 8), rng.randint(1, 8)
         which = rng.choice(["glrm", "glrd", "regular", "regular"])
         if which == "glrm":
             a = [L, R, rng.choice([L * R // 3, L * R // 3 + 1, rng.randint(0, L * R), L * R])]
@@ -1265,7 +1265,7 @@ def cases(ctx):
         infos.append(("sampler", dict(which=which, args=a, mode=rng.choice(MODES), rseed=rs())))
 
     # ---- modifications
-    nmod = 120 if quick else 1200
+    nmod = 800 if quick else 10000
     for _ in range(nmod):
         which = rng.choice(["addedges_s", "addedges_b", "split"])
         dens = rng.choice([0, 0.2, 0.5, 0.8, 1])
@@ -1276,7 +1276,7 @@ def cases(ctx):
             k = rng.choice([-1, 0, 1, cap - 1, cap, cap + 1, rng.randint(0, max(cap, 0))])
             infos.append(("mod", dict(which=which, l=l, r=r, edges=edges, k=k, mode=rng.choice(MODES), rseed=rs())))
         else:
-            n = rng.randint(0, 6)
+            n = rng.randint(0, 7)
             edges = rand_simple(rng, n, dens)
             cap = n * (n - 1) // 2 - len(edges) if which == "addedges_s" else len(edges)
             k = rng.choice([-1, 0, 1, cap - 1, cap, cap + 1, rng.randint(0, max(cap, 0))])
@@ -1337,7 +1337,7 @@ def cases(ctx):
         infos.append(("cli", dict(gtype=gtype, spec=toks, mode=rng.choice(MODES), rseed=rs())))
 
     # options
-    nopt = 150 if quick else 1500
+    nopt = 900 if quick else 12000
     simple_bases = [["complete", "4"], ["empty", "5"], ["gnm", "6", "7"], ["gnp", "5", "0.5"], ["grid", "2", "3"],
                     ["gnd", "6", "3"], ["torus", "3", "3"], ["gnp", "2", "0.7", "3"], ["complete", "2", "3"], ["empty", "1"]]
     bip_bases = [["complete", "2", "3"], ["empty", "3", "3"], ["glrm", "3", "4", "3"], ["glrm", "3", "3", "5"],
@@ -1381,12 +1381,24 @@ def cases(ctx):
 
     # argparse level (refusals must be usage errors)
     ap_specs = [(g, t) for g, t in specs if g != "digraph"]
-    for gtype, toks in rng.sample(ap_specs, min(len(ap_specs), 80 if quick else 600)):
+    for gtype, toks in rng.sample(ap_specs, min(len(ap_specs), 250 if quick else 1500)):
         if toks:
             infos.append(("argparse", dict(gtype=gtype, spec=toks, mode="seed", rseed=rs())))
 
     for suite, info in infos:
         yield build(suite, info)
+
+
+def search_global(ctx):
+    """a proof obligation no longer checks: evaluate the property itself (oracle only, no model) on the
+    quick-tier inputs and return the first failing input that is not a recorded finding"""
+    known = {"regular:lib-r==0", "regular:lib-d>r", "grid:no-dimensions"}
+    for c in cases({"tier": "quick", "seed": ctx.get("seed", 0), "prop": "C15"}):
+        common.run_impl(c)
+        r = common.run_oracle(c)
+        if r is not None and c.cls not in known:
+            return {"suite": c.suite, "info": c.info, "failure": r}
+    return None
 
 
 def search(ctx, case):
